@@ -100,6 +100,16 @@ func c13Packets(c *sim.Ctx) ([]mq.Packet, []string) {
 		cfg := apiCfg(c, false)
 		cfg.NoHuge = true
 		a := gen.Packet(t, cfg)
+		if t.Bool(1, 6) {
+			// a zero-value literal filled in through the setters: its FIRST read-only
+			// calls happen in the goroutine phase
+			if p, _, err := buildGuardZero(a, t); err == nil {
+				ps = append(ps, p)
+				hows = append(hows, a.TypeName()+" built on a zero-value literal")
+				c.Count("probe.zero-value-literal-packet")
+			}
+			continue
+		}
 		if p, _, err := buildGuard(a, t); err == nil {
 			ps = append(ps, p)
 			hows = append(hows, a.TypeName()+" built")
@@ -152,30 +162,45 @@ func runC13(c *sim.Ctx) *sim.Violation {
 	}
 	// drop packets that cannot be written (Undefined) from WriteTo comparison
 	seq := make([][]byte, len(ps))
-	for i, p := range ps {
-		if _, ok := p.(*mq.Undefined); ok {
-			continue
+	sequential := func() bool {
+		for i, p := range ps {
+			if _, ok := p.(*mq.Undefined); ok {
+				continue
+			}
+			b, err, pi := encodeReal(p)
+			if err != nil || pi != nil {
+				return false
+			}
+			seq[i] = b
 		}
-		b, err, pi := encodeReal(p)
-		if err != nil || pi != nil {
+		return true
+	}
+	// In a COLD run nothing at all is called on the shared packets before the
+	// goroutines start: the very first WriteTo/String/... of each packet happens
+	// concurrently (state a packet initialises lazily on first use), and the
+	// sequential reference bytes are taken after the goroutines have joined.
+	cold := t.Bool(1, 2)
+	if cold {
+		c.Count("probe.cold-packets:first-read-only-call-happens-concurrently")
+	} else {
+		if !sequential() {
 			c.Count("skipped.sequential-encode-failed")
 			return nil
 		}
-		seq[i] = b
-	}
-	// the process history includes writes that FAILED (a refused write, a partial
-	// write): whatever the encoder does on its error path must not poison later
-	// concurrent use
-	for i, p := range ps {
-		if seq[i] == nil {
-			continue
+		// the process history includes writes that FAILED (a refused write, a partial
+		// write): whatever the encoder does on its error path must not poison later
+		// concurrent use
+		for i, p := range ps {
+			if seq[i] == nil {
+				continue
+			}
+			for _, k := range []int{0, len(seq[i]) / 2} {
+				fw := &failingWriter{room: k}
+				sim.Guard(func() { p.WriteTo(fw) })
+			}
 		}
-		for _, k := range []int{0, len(seq[i]) / 2} {
-			fw := &failingWriter{room: k}
-			sim.Guard(func() { p.WriteTo(fw) })
-		}
+		c.Count("probe.failed-writes-before-the-concurrent-phase")
 	}
-	c.Count("probe.failed-writes-before-the-concurrent-phase")
 	// ---- mechanism B: real goroutines. It runs BEFORE the sequential probes of
 	// mechanism A so that lazily initialised state (a memo table filled on first
 	// use) is still cold when the goroutines first touch it.
@@ -209,6 +234,11 @@ func runC13(c *sim.Ctx) *sim.Violation {
 		g, k int
 		what string
 	}
+	type written struct {
+		g, k, pkt int
+		b         []byte
+	}
+	var outs [][]written
 	// When a recorded tape is replayed the goroutine phase is repeated: whether
 	// the race detector still holds the conflicting access in its bounded shadow
 	// history depends on the interleaving, which the Go scheduler picks.
@@ -219,6 +249,7 @@ func runC13(c *sim.Ctx) *sim.Violation {
 	var res [][]mismatch
 	for rep := 0; rep < reps; rep++ {
 		res = make([][]mismatch, N)
+		outs = make([][]written, N)
 		var start, done sync.WaitGroup
 		start.Add(1)
 		for g := 0; g < N; g++ {
@@ -238,7 +269,11 @@ func runC13(c *sim.Ctx) *sim.Violation {
 					p := ps[op.pkt]
 					if op.kind == 7 {
 						// a write that fails half way, concurrently with everything else
-						fw := &failingWriter{room: len(seq[op.pkt]) / 2}
+						room := 8
+						if !cold {
+							room = len(seq[op.pkt]) / 2
+						}
+						fw := &failingWriter{room: room}
 						sim.Guard(func() { p.WriteTo(fw) })
 						continue
 					}
@@ -247,8 +282,8 @@ func runC13(c *sim.Ctx) *sim.Violation {
 						res[g] = append(res[g], mismatch{g, k, "panic: " + pi.Value})
 						continue
 					}
-					if op.kind == 0 && seq[op.pkt] != nil && !bytes.Equal(w.b, seq[op.pkt]) {
-						res[g] = append(res[g], mismatch{g, k, fmt.Sprintf("concurrent WriteTo of packet %d gave %s, sequential %s", op.pkt, hexs(w.b), hexs(seq[op.pkt]))})
+					if op.kind == 0 {
+						outs[g] = append(outs[g], written{g, k, op.pkt, w.b})
 					}
 				}
 			}(g)
@@ -257,6 +292,17 @@ func runC13(c *sim.Ctx) *sim.Violation {
 		done.Wait()
 	}
 	c.Ev("joined", int64(N), 0, 0)
+	if cold && !sequential() {
+		c.Count("skipped.sequential-encode-failed")
+		return nil
+	}
+	for g := range outs {
+		for _, o := range outs[g] {
+			if seq[o.pkt] != nil && !bytes.Equal(o.b, seq[o.pkt]) {
+				res[g] = append(res[g], mismatch{o.g, o.k, fmt.Sprintf("concurrent WriteTo of packet %d gave %s, sequential %s", o.pkt, hexs(o.b), hexs(seq[o.pkt]))})
+			}
+		}
+	}
 	for g := range res {
 		for _, m := range res[g] {
 			return sim.V(fmt.Sprintf("C13/%s/concurrent-result-differs", typeName(drv.TypeOf(ps[lists[m.g][m.k].pkt]))),
